@@ -1001,7 +1001,7 @@ package state
 //@ func Restore.Tombstone
 //@ props C02
 //@ results err
-//@ requires s != nil && s.store != nil && s.store.kvsGraveyard != nil && stone != nil
+//@ requires s != nil && stone != nil
 //@ ensures[stored-verbatim] err == nil ==> T_tombstones(stone.Key) == stone
 //@ ensures[content-untouched] stone.Key == old(stone.Key) && stone.Index == old(stone.Index)
 //@ ensures[index-max-merged] err == nil ==> idxVal("tombstones") == ite(old(idxVal("tombstones")) >= stone.Index, old(idxVal("tombstones")), stone.Index)
